@@ -237,6 +237,15 @@ def gen_qtank_case(r, maxops):
             ops.append(("setT", rand_T(r)))
         else:
             ops.append(("ds",))
+    if r.random() < 0.2:
+        # used, re-initialised, used again (QueueTank.reinit: what a node's reinit / Model.reinit reaches); the second use
+        # is followed until what it pushed is due
+        k = r.randint(1, len(ops))
+        d = r.choice([1, 2, 2, 3, 3])
+        first = ops[:k] + ([("push", push_amount(r, part, cap), d, False)] if r.random() < 0.7 else [])
+        more = [("push", push_amount(r, part, cap), r.choice([d, d, 0, 1, 2, 3]), False) if r.random() < 0.5 else ("end", rand_T(r))
+                for _ in range(r.randint(1, 4))]
+        ops = first + [("reinit",)] + more + [("end", rand_T(r)) for _ in range(r.randint(1, n + 4))]
     return {"kind": "qtank", "cls": cls, "adds": adds, "nons": nons, "cap": cap, "init": init, "n": n,
             "dec": dec, "ops": ops}
 
@@ -288,6 +297,8 @@ def run_qtank_impl(c):
             parent.set_T(op[1])
         elif k == "ds":
             out += part.ev(t.ds())
+        elif k == "reinit":
+            t.reinit()
         out += enc_qtank_py(part, t)
     return out
 
@@ -312,6 +323,8 @@ def qtank_expr(c):
             ops.append(f"QSetT {C.qlit(op[1])}")
         elif k == "ds":
             ops.append("QDs")
+        elif k == "reinit":
+            ops.append("QReinit")
     na, nn = len(c["adds"]), len(c["nons"])
     return (f"run_qtank {na} {nn} {BUCKETS} (qt_set_T (qt_init {C.qlit(c['cap'])} {C.vlit(c['init'])} {c['n']} "
             f"{lit_dec(c['dec'])}) (20#1)) [{'; '.join(ops)}]")
@@ -673,6 +686,9 @@ def correspondence(rep, family, n, maxops, tag="", maxdigits=None):
                                   "impl_raised": raised, "classes": clsdist, "ops": opdist, "coq_log": log[-400:]}
     if evald < n - raised:
         rep.violation("broken-correspondence", f"model evaluation failed for {family}: {log[-300:]}", {"log": log[-2000:]}, False)
+    # the search for a failing input starts from the cases on which model and implementation part: the monitors of the
+    # property are run on them first (mon_comp.monitor, cases_extra)
+    MISMATCHED.setdefault(family, []).extend(c for c, why, got, out in mism[:25])
     for c, why, got, out in mism[:3]:
         c2 = shrink(family, c) if got is not None else c
         rep.violation("broken-correspondence", f"{c['cls']}: implementation and model disagree: {why}",
@@ -680,6 +696,9 @@ def correspondence(rep, family, n, maxops, tag="", maxdigits=None):
     if cases:
         rep.samples.append({"family": family, "case": case_json(cases[0])})
     return cases, impl
+
+
+MISMATCHED = {}
 
 
 def disagree(family, c):
